@@ -6,8 +6,8 @@ import (
 	"strings"
 
 	"github.com/drand/drand/v2/internal/dkg"
-	"github.com/drand/drand/v2/zzverif/emit"
 	pdkg "github.com/drand/drand/v2/protobuf/dkg"
+	"github.com/drand/drand/v2/zzverif/emit"
 )
 
 // The protocol's legal transitions as a table written here from the protocol description
@@ -110,6 +110,17 @@ func (w *world) monitor(rep *emit.Report, prop string, hid int, n *node) {
 					rep.Fail("C08-finished-not-output", "finished group differs from the execution output", in())
 				}
 			}
+			// M15 a node WITH a finished record never enters a proposal (by packet or by its own command)
+			// whose epoch is not above the finished epoch: a completed epoch is only followed by later ones
+			// (distinct from the listed findings, where the new epoch stays above the finished one)
+			if b.fin != nil && (a.cur.state == "Proposed" || a.cur.state == "Proposing") &&
+				(a.cur.state != b.cur.state || a.cur.epoch != b.cur.epoch) && a.cur.epoch <= b.fin.epoch {
+				cl := "C08-stale-proposal-accepted-over-finished-epoch"
+				if a.cur.epoch == 1 {
+					cl = "C08-stale-first-epoch-proposal-accepted"
+				}
+				rep.Fail(cl, fmt.Sprintf("a node whose last completed epoch is %d entered a proposal for epoch %d", b.fin.epoch, a.cur.epoch), in())
+			} else
 			// M4 the epoch never decreases
 			if a.cur.epoch < b.cur.epoch {
 				cl := "C08-member-epoch-decreases"
@@ -297,8 +308,21 @@ func (w *world) monitor(rep *emit.Report, prop string, hid int, n *node) {
 					if nd.Address() == md.GetAddress() {
 						k, _ := nd.Key.MarshalBinary()
 						if !verifiesUnder(k) {
-							rep.Fail("C09-member-key-substitution-accepted",
-								"packet accepted although its signature does not verify under the key recorded for "+md.GetAddress()+" in the node's finished group", in())
+							cl := "C09-member-key-substitution-accepted"
+							if t := st.ev.packet.GetProposal(); t != nil {
+								// the same member address more than once in the packet, under different keys
+								keys := map[string]bool{}
+								for _, p := range append(append(append([]*pdkg.Participant{}, t.GetRemaining()...), t.GetLeaving()...), t.GetJoining()...) {
+									if p.GetAddress() == md.GetAddress() {
+										keys[string(p.GetKey())] = true
+									}
+								}
+								if len(keys) > 1 {
+									cl = "C09-member-authenticated-against-key-from-the-packet"
+								}
+							}
+							rep.Fail(cl,
+								"packet accepted although its signature does not verify under the key recorded for "+md.GetAddress()+" in the node's finished group (a node that belongs to the group authenticates members against the keys of its current group)", in())
 						}
 					}
 				}
